@@ -403,6 +403,11 @@ func (cs *ContractSet) parseContractSource(pkgPath, filename string, src []byte)
 			}
 			sc := &Scan{Pkg: pkgPath, Label: label, Pos: pos, Kind: head[len(head)-2], Target: head[len(head)-1], Props: strings.Split(head[0], ","),
 				Allowed: strings.Fields(strings.ReplaceAll(rest[colon+1:], ",", " "))}
+			if !knownScanKinds[sc.Kind] {
+				// an unknown kind must never be read as "nothing found": it is a contract error
+				bad(fmt.Errorf("scan: unknown kind %q", sc.Kind))
+				continue
+			}
 			cs.Scans = append(cs.Scans, sc)
 		case "pkgcallpre":
 			// pkgcallpre[label] <props> <callee>: expr
@@ -652,6 +657,9 @@ func (cs *ContractSet) parseContractSource(pkgPath, filename string, src []byte)
 					continue
 				}
 				cur.Lets = append(cur.Lets, &LetDef{Name: strings.TrimSpace(rest[:eq]), Expr: e, Text: pp})
+			default:
+				// a clause word the binder does not know is a contract error, never a silently dropped clause
+				bad(fmt.Errorf("unknown clause %q", kw))
 			}
 		}
 	}
